@@ -39,8 +39,16 @@
                     }),
                 }
             }), // @dispatch_follows_the_registered_routes
+            // C03: whatever the trie looks like, a handler never sees '.', '..' or the empty string as a variable value
+            (r is Ok && !(segments_of(path) is Ok && walk_to(*self.root, segments_of(path)->Ok_0, Map::empty()) is Some && f5_exception(walk_to(*self.root, segments_of(path)->Ok_0, Map::empty())->Some_0.0, upper_string(method_text(*method)), version))) ==> values_ok(vars_view(r->Ok_0.endpoint.variables@)), // @no_dot_or_empty_segment_reaches_a_handler_as_a_variable_value
 //@ body_start
-        broadcast use ax_string_ext, ax_string_obeys_cmp, ax_upper_string;
+        broadcast use ax_string_ext, ax_string_obeys_cmp, ax_upper_string, ax_segments_are_good;
+        proof {
+            if segments_of(path) is Ok {
+                assert(values_ok(Map::<String, VarSpec>::empty()));
+                walk_binds_only_request_segments(*self.root, segments_of(path)->Ok_0, Map::empty());
+            }
+        }
 //@ closure 0
 |_e: String| -> (h: HttpError) ensures status_of(h) == 400
 //@ closure 1
